@@ -336,6 +336,38 @@ def one_case(ctx, case, label="gen"):
         except Exception:
             pass
 
+    # ---- one interpolator, several queries: the answer is a function of (instances, variable, value) and
+    # not of what the same interpolator object was asked before (other variables - those sharing their last
+    # attribute name first -, the same variable at another value, the same query twice)
+    if impl[0] == "ok":
+        others = []
+        for p_, _, l in leaves(trees[0]):
+            if tuple(p_) == tuple(tp) or not all(isinstance(k_, str) for k_ in p_) or l["k"] != "num":
+                continue
+            xs = [at(t, p_) for t in trees]
+            if any(x is None or x["k"] != "num" or x["v"] != x["v"] for x in xs) or len({x["v"] for x in xs}) < len(xs):
+                continue
+            others.append((p_[-1] != tp[-1], ctx.rng.random(), list(p_), xs[ctx.rng.randrange(len(xs))]["v"]))
+        others.sort()
+        history = [(o[2], o[3]) for o in others[:2]] + [(tp, v + 1.0), (tp, v)]
+        objs = [build(t) for t in trees]
+        cls = af.LinearInterpolator if kind == "linear" else af.SplineInterpolator
+        interp = cls(objs)
+        last = None
+        for hp, hv in history + [(tp, v)]:
+            try:
+                last = ("ok", tree_of(interp[functools.reduce(getattr, hp, interp) == hv]))
+            except Exception as e:  # noqa
+                last = ("err", err_class(e), f"{type(e).__name__}: {str(e)[:100]}")
+        ctx.hit("session:%d-earlier-queries" % len(history))
+        if others and others[0][0] is False:
+            ctx.hit("session:shared-leaf-name")
+        if json.dumps(last, sort_keys=True) != json.dumps(impl, sort_keys=True):
+            ctx.fail("C20-history-dependent",
+                     "the same query on an interpolator that answered other queries before differs from the query "
+                     "on a fresh interpolator over the same instances", dict(case, history=[[hp, hv] for hp, hv in history]),
+                     {"fresh": impl, "after_history": last})
+
     # ---- oracle: the property sentence on the real output
     oracle(ctx, case, impl, tvals, hit, distinct_ts)
 
